@@ -22,7 +22,10 @@
                    equal the model's), with all invariants conjoined primed.
    Strict = FALSE: property level only (the driver re-validates traces the strict pass rejected):
                    any request order is accepted; a call that met no injected fault must return
-                   the complete exact listing; a call that raises must have met a fault, must have
+                   the complete exact listing; a call that met one must raise (unless it sent the
+                   failed request again by itself and then returns the complete listing, or the
+                   fault was the DON'T-CARE 404 of a folder lookup); a call that raises must have
+                   met a fault, must have
                    closed every response it opened, and must raise the client's own family (HTTP /
                    network / status faults: the request error with that status and URL).         *)
 EXTENDS Graph, Json, IOUtils, TLCExt
@@ -64,7 +67,7 @@ SFault ==
 SResp ==
     /\ IsEvent("Resp") /\ pc = "sent"
     /\ LET rs == Resp(Ev.status, Ev.body, Ev.items, Ev.next, Ev.node, Ev.isFolder) IN
-       /\ ~Ev.inj => Healthy = AnsResp(rs)
+       /\ ~Ev.inj => (rs.status \in 200..299 /\ Healthy = AnsResp([rs EXCEPT !.status = 200]))   \* any 2xx is success
        /\ TransportReturn(rs, Ev.inj)
 SClose == IsEvent("Close") /\ CloseResp
 SReturn ==
@@ -81,17 +84,24 @@ SNext == /\ (SCall \/ SReq \/ SFault \/ SResp \/ SClose \/ SReturn \/ SRaise \/ 
 
 (* ------------------------------ property level ------------------------------ *)
 NoCause == [kind |-> "", code |-> 0, k |-> ""]
-LInit == lib = [st |-> "idle", open |-> {}, closed |-> {}, inj |-> FALSE, cause |-> NoCause, lastk |-> ""]
-LCall == IsEvent("Call") /\ lib.st = "idle" /\ lib' = [lib EXCEPT !.st = "in", !.inj = FALSE, !.cause = NoCause]
-LReq == IsEvent("Req") /\ lib.st = "in" /\ lib' = [lib EXCEPT !.lastk = Ev.k]
+EvReq == Req(Ev.k, Ev.f, Ev.p, Ev.path)
+LInit == lib = [st |-> "idle", open |-> {}, closed |-> {}, inj |-> FALSE, cause |-> NoCause, lastk |-> "",
+                lastReq |-> NoReq, failedReq |-> NoReq, resent |-> FALSE]
+LCall == IsEvent("Call") /\ lib.st = "idle"
+         /\ lib' = [lib EXCEPT !.st = "in", !.inj = FALSE, !.cause = NoCause, !.failedReq = NoReq, !.resent = FALSE]
+\* resent: the request that met the injected fault was sent again (a client that retries by itself)
+LReq == IsEvent("Req") /\ lib.st = "in"
+        /\ lib' = [lib EXCEPT !.lastk = Ev.k, !.lastReq = EvReq,
+                               !.resent = @ \/ (lib.inj /\ EvReq = lib.failedReq)]
 LFault ==
     /\ IsEvent("Fault") /\ lib.st = "in"
-    /\ lib' = IF Ev.inj THEN [lib EXCEPT !.inj = TRUE, !.cause = [kind |-> Ev.kind, code |-> Ev.code, k |-> lib.lastk]]
+    /\ lib' = IF Ev.inj THEN [lib EXCEPT !.inj = TRUE, !.failedReq = lib.lastReq,
+                                         !.cause = [kind |-> Ev.kind, code |-> Ev.code, k |-> lib.lastk]]
               ELSE [lib EXCEPT !.cause = [kind |-> "genuine", code |-> Ev.code, k |-> lib.lastk]]
 LResp ==
     /\ IsEvent("Resp") /\ lib.st = "in"
     /\ lib' = IF Ev.inj
-              THEN [lib EXCEPT !.open = @ \cup {Ev.r}, !.inj = TRUE,
+              THEN [lib EXCEPT !.open = @ \cup {Ev.r}, !.inj = TRUE, !.failedReq = lib.lastReq,
                                !.cause = [kind |-> IF Ev.status < 200 \/ Ev.status > 299 THEN "non2xx" ELSE Ev.body,
                                           code |-> Ev.status, k |-> lib.lastk]]
               ELSE [lib EXCEPT !.open = @ \cup {Ev.r}]
@@ -100,6 +110,9 @@ Swallowable(c) == c.k = "folderByPath" /\ c.code = 404       \* "folder not foun
 LReturn ==
     /\ IsEvent("Return") /\ lib.st = "in"
     /\ Feasible(srv, job)
+    \* "if a request fails the call raises": returning after an injected fault is acceptable only for the
+    \* folder-lookup 404 (DON'T-CARE) or when the client itself sent the failed request again
+    /\ lib.inj => (Swallowable(lib.cause) \/ lib.resent)
     /\ ListingIn(srv, job, Ev.res, Scope(srv, job), ~(lib.inj /\ Swallowable(lib.cause)))
     /\ lib' = [lib EXCEPT !.st = "idle"]
 LRaise ==
